@@ -14,18 +14,36 @@ TRUSTED = [
     "Coq 8.16.1 kernel + vm_compute; every theorem closed under the global context",
     "loader models coq/Model/Oscar.v (incl. load_nonl for a file whose last line has no newline) and Jetscape.v, tied by this run's "
     "correspondence on EVERY truncation offset and every single particle-line deletion/duplication of the generated files",
-    "tables regenerated from Particle.py; oracles float()/int()/PDGID as in C01",
+    "tables regenerated from Particle.py; oracles float()/int()/PDGID as in C01; for C07_trunc additionally int_oracle_ok: int() of a "
+    "non-empty decimal digit string is its value and int('') raises (premise of the theorem, a fact about Python's int)",
+    "format definition used by C07_trunc / C07_jetscape_trunc: wf (as C01) + shape: event header lines are exactly "
+    "'# event <i> out <n>', footers start '# event <i> end', numerals without leading zeros, the three file header lines do not "
+    "contain the word event; jshape: only the JETSCAPE trailer contains sigmaGen and it starts with '#'",
 ]
-ASSUMPTIONS = ["cuts inside an Oscar event-header/footer comment line and inside the JETSCAPE trailer after the word sigmaGen have no theorem: model correspondence (all byte offsets) + property oracle only",
-               "offsets before the first newline are excluded (the loader's backward seek fails there: an error)"]
-LEVEL_TEXT = ("Theorems (Coq, Oscar family, any well-formed base file): a cut at an event boundary loads exactly the first m complete events with "
-              "matching counts; a cut right after an event header, any cut whose last line is (a prefix of) a particle line or of the format line "
-              "(with or without final newline), any file with fewer particle lines than declared (lost line) and any file with one more than declared "
-              "(duplicated line) fail to load; JETSCAPE: a last line without sigmaGen (every cut before that word), a lost and a duplicated particle line fail to load. The remaining truncation points (inside a comment line / inside the trailer) are decided by running the "
-              "loader models and the real readers side by side on every byte offset of generated files, plus the error-or-complete-prefix oracle.")
-LEVEL_NOTE = ("Partial proof: named C07_trunc_partial_*; cuts inside '#' lines are exploration-level (exhaustive offsets per generated file). "
-              "Hand-written loader models at token level; a partial last token is an arbitrary string.")
-TECHNIQUE = "Coq proof over the loader model with declared-vs-present line counts (induction over events); exhaustive byte-offset correspondence for the rest"
+ASSUMPTIONS = ["the truncated file is modelled after the loaders' split: n complete lines + (nothing | first j tokens of line n + a prefix of token j, "
+               "no final newline); C07_cut_bytes_are_token_cuts proves every non-empty string prefix of a rendered file (blank- and newline-free "
+               "tokens, non-empty lines) has this form",
+               "JETSCAPE lines are tokenised after replace('\\t',' ') as in the loader; the byte-level lemma is stated for blank-joined tokens only",
+               "offsets before the first newline: the model returns an error (load_nonl on a one-line file), as the loader's backward seek does",
+               "Oscar2013Extended_IC / _Photons header scans are not modelled (wf requires a standard format)",
+               "a cut inside the footer of event m at or after its word 'end' can load (m complete events, matching counts); the impact parameter of "
+               "that last event is then read from the wrong token or the constructor fails - the theorem states events/counts only, as the property does"]
+LEVEL_TEXT = ("Theorems (Coq). C07_trunc (Oscar2013/Extended/ASCII) and C07_jetscape_trunc: for EVERY well-formed file and EVERY truncation point "
+              "(after any number of complete lines, and inside any line after any number of tokens plus an arbitrary prefix of the next token, i.e. every byte "
+              "offset - C07_cut_bytes_are_token_cuts) the loader model raises, or returns exactly the first m complete events with num_events = m and the "
+              "per-event counts of those events; and it returns only if the cut is the line boundary after event m or lies in the footer line of event m at or "
+              "after its word 'end' (Oscar) / in the trailer at or after the word sigmaGen, with all events (JETSCAPE). Covers cuts inside the three header "
+              "lines, inside '# event i out n' (including a decimal label cut to a shorter decimal, rejected by the final event-count comparison), inside "
+              "particle lines, inside footers and inside the trailer. C07_trunc_ctor: the same through Oscar.__init__ (load + impact_parameter()). "
+              "C07_delete / C07_dup / C07_jetscape_delete / C07_jetscape_dup: for every well-formed file and every particle line of it, the file with that line "
+              "removed / repeated fails to load (from C07_lost_line / C07_duplicated_line: fewer / one more particle line than declared). "
+              "Model and real readers are run side by side on every byte offset and every single-line deletion/duplication of generated files, with the "
+              "error-or-complete-prefix oracle on the real code.")
+LEVEL_NOTE = ("Full statement proved for truncation (no _partial names left). Hand-written loader models at token level tied by exhaustive-offset "
+              "correspondence. The property oracle also checks the positional clause (a loading cut is an event boundary / inside an end line after 'end' / inside the trailer after sigmaGen) on the real code.")
+TECHNIQUE = ("Coq: location of the cut line by induction over the events, split of the loader at the last complete event (scan / read-loop lemmas of C01), "
+             "case analysis of the cut line's tokens against the three line shapes, decimal-prefix arithmetic (a proper prefix of a canonical numeral is "
+             "at least ten times smaller); split-of-a-prefix-of-a-join lemma for the byte level; exhaustive byte-offset correspondence + property oracle")
 
 PRELUDE = """From Coq Require Import List String ZArith QArith.
 From SX Require Import Lib.Strs Gen.GenParticleMap Model.Oscar Model.Jetscape.
@@ -141,6 +159,19 @@ def oracle(case, obs=None, full=None):
     for j in range(m):
         if complete_rows[j] > k:
             return f"{case['dmg']}: event {j} is returned although its particle lines are not all inside the truncated file"
+    # where a cut that still loads may be (the positional clause of C07_trunc / C07_jetscape_trunc): on the line boundary after an
+    # event's end line or inside that end line at or after its word 'end' (Oscar); inside the trailer at or after the word sigmaGen (JETSCAPE)
+    if k < len(base):
+        last = text.split("\n")[-1] if not text.endswith("\n") else text.split("\n")[-2]
+        whole = base[:k].count("\n") if not text.endswith("\n") else base[:k].count("\n") - 1
+        full_line = lines[whole]
+        if case["kind"] == "jet":
+            if not ("sigmaGen" in full_line and "sigmaGen" in last):
+                return f"{case['dmg']}: the file loads although the cut is not inside the trailer after the word sigmaGen (last line {last!r})"
+        else:
+            is_end = full_line.startswith("# event") and " end " in full_line
+            if not (is_end and "end" in last):
+                return f"{case['dmg']}: the file loads although the cut is neither an event boundary nor inside an end line after 'end' (last line {last!r})"
     if obs["nevents"] != m:
         return f"{case['dmg']}: num_events() = {obs['nevents']} but {m} events are returned"
     cnt = obs["counts"]
